@@ -116,7 +116,7 @@ def run_share(pid, tier, count, nconn=6, race=True):
     return violations, cov
 
 
-def run_conc_check(pid, tier, n_sched, n_free, race=False, assumptions=(), fault_only=False):
+def run_conc_check(pid, tier, n_sched, n_free, race=False, assumptions=(), fault_only=False, light=False):
     """fault_only (C10): only the replay part, over schedules in which a write-side transport operation fails while
     other writers are queued; the exhaustive model runs belong to C09/C11."""
     t0 = time.time()
@@ -126,6 +126,10 @@ def run_conc_check(pid, tier, n_sched, n_free, race=False, assumptions=(), fault
         core.build_driver(race=True)
     if fault_only:
         return _replay_part(pid, tier, n_sched, n_free, race, seed, t0, None, "MC_Conc_sim_fault.cfg")
+    if light:
+        # replay part only (C02: the wire stays well-formed under concurrent WriteControl callers)
+        return _replay_part(pid, tier, n_sched, n_free, race, seed, t0, None, "MC_Conc_sim.cfg" if tier == "quick" else "MC_Conc_sim_thorough.cfg",
+                            force_fault=False)
     mc = core.run_mc("MC_Conc.tla", "MC_Conc_quick.cfg" if tier == "quick" else "MC_Conc_thorough.cfg", "%s-mc-conc" % pid, heap="16g")
     log("[%s] MC lock protocol vs monitor: %d distinct states, %d generated, %.1fs" % (pid, mc["states"], mc["transitions"], mc["wall"]))
     live = core.run_mc("MC_Conc.tla", "MC_Conc_live.cfg", "%s-mc-live" % pid, workers=8)
@@ -139,14 +143,14 @@ def run_conc_check(pid, tier, n_sched, n_free, race=False, assumptions=(), fault
                         "MC_Conc_sim.cfg" if tier == "quick" else "MC_Conc_sim_thorough.cfg")
 
 
-def _replay_part(pid, tier, n_sched, n_free, race, seed, t0, model, sim_cfg):
+def _replay_part(pid, tier, n_sched, n_free, race, seed, t0, model, sim_cfg, force_fault=True):
     sim = core.run_sim("MC_Conc.tla", sim_cfg, "%s-sim" % pid, n_sched, 200, seed)
     scheds = sim["progs"]
     if not scheds:
         raise core.Infra("no schedules generated")
     conc = concretise(scheds, pid, tier, seed)
     free = free_programs(scheds, pid, tier, seed, n_free, block=True)
-    if model is None:
+    if model is None and force_fault:
         for p in free:
             if p["faultAt"] == 0:
                 p["faultAt"] = 1 + (p["seed"] % 5)
@@ -192,7 +196,7 @@ def _replay_part(pid, tier, n_sched, n_free, race, seed, t0, model, sim_cfg):
                         closed = True
                         if e["t"] == "R":
                             floors["close_by_reader"] += 1
-    need = ("wc_timeout", "wc_closesent", "transport_fault", "write_after_close_attempt") if model else ("transport_fault",)
+    need = ("wc_timeout", "wc_closesent", "transport_fault", "write_after_close_attempt") if model else (("transport_fault",) if force_fault else ("ctl_between_fragments",))
     missing = [k for k, v in floors.items() if v == 0 and k in need]
     if missing:
         raise core.Infra("coverage floor not met in the replayed schedules (never observed): %s" % ", ".join(missing))
